@@ -16,6 +16,7 @@ The run is described by the list of decisions (`Controller.decisions`); strategi
 """
 import asyncio
 import itertools
+import os
 import queue as _queue
 import sys
 import threading as _threading
@@ -869,3 +870,119 @@ def run_controlled(ctl, repo, make_coro, quiesce_timeout=6.0):
             ctl.shutdown()
     res['hang'] = ctl.hang
     return res
+
+
+# ------------------------------------------------------------------------------------------------ failed operation, CLI style
+def _probe_failed_restore(spec):
+    """(child process) run `asyncio.run(repo.restore(...))` exactly as replicat's CLI does, with one failing transfer while the
+    other loaders are busy, and report which executor threads are still blocked afterwards."""
+    import random
+    import traceback
+    from pathlib import Path
+    n, nchunks, size = spec['n'], spec['chunks'], spec.get('chunk_size', 16)
+    state = {'calls': 0, 'arrived': 0, 'armed': False}
+    lock = _threading.Lock()
+    released = _threading.Event()
+
+    class Be(R.MemBackend):
+        def download_stream(self, name, stream, chunk_size=128_000):
+            if state['armed'] and name.startswith('data/'):
+                with lock:
+                    state['calls'] += 1
+                    mine = state['calls']
+                if mine == 1:
+                    # fail once every slot is taken by a transfer (or after a short wait)
+                    t0 = time.monotonic()
+                    while state['calls'] < min(n, nchunks) and time.monotonic() - t0 < 0.5:
+                        time.sleep(0.002)
+                    time.sleep(0.02)
+                    raise InjectedFault('injected transfer failure')
+                released.wait(spec.get('hold', 1.0))
+            return super().download_stream(name, stream, chunk_size)
+
+    out = {}
+    with R.Scratch('c09_probe_%d' % os.getpid()) as sc:
+        src, tgt = sc.dir('src'), sc.dir('tgt')
+        r = random.Random(spec.get('seed', 0))
+        R.write_tree(src, {'f': (r.randbytes(size * nchunks), None)})
+        be = Be()
+        repo, key = R.init_repo(be, R.settings_for(False, chunking={'name': 'gclmulchunker', 'min_length': size, 'max_length': size}), concurrent=n)
+        R.snapshot(repo, [src])
+        repo2 = R.unlock(be, concurrent=n)
+        state['armed'] = True
+        t0 = time.monotonic()
+        try:
+            with R.quiet():
+                asyncio.run(repo2.restore(path=Path(tgt)))
+            out['raised'] = None
+        except BaseException as e:  # noqa: BLE001
+            out['raised'] = type(e).__name__
+        out['returned_after_s'] = round(time.monotonic() - t0, 3)
+        released.set()
+        time.sleep(0.4)
+
+        def blocked_now():
+            frames = sys._current_frames()
+            res = []
+            for t in _threading.enumerate():
+                if t is _threading.main_thread() or t.daemon or t.ident not in frames:
+                    continue
+                names = [f.name for f in traceback.extract_stack(frames[t.ident])]
+                if names and names[-1] in ('wait', 'result') and ('_acquire_slot_threadsafe' in names or '_maybe_run_coroutine_threadsafe' in names):
+                    res.append((t.name, '_acquire_slot_threadsafe' if '_acquire_slot_threadsafe' in names else '_maybe_run_coroutine_threadsafe'))
+            return sorted(res)
+        b1 = blocked_now()
+        time.sleep(0.4)
+        b2 = blocked_now()
+        out['blocked'] = [x for x in b1 if x in b2]
+        out['slots_free'] = sorted(repo2._slots._queue)
+        out['downloads_started'] = state['calls']
+    return out
+
+
+def probe_failed_restore(spec, timeout=30.0):
+    """fork a child for `_probe_failed_restore` (it may be left with blocked non-daemon threads, so it ends with os._exit)"""
+    import json
+    import os as _os
+    import select
+    rfd, wfd = _os.pipe()
+    pid = _os.fork()
+    if pid == 0:
+        code = 0
+        try:
+            _os.close(rfd)
+            try:
+                res = _probe_failed_restore(spec)
+            except BaseException as e:  # noqa: BLE001
+                import traceback
+                res = {'probe_error': traceback.format_exc()[-1200:]}
+            _os.write(wfd, json.dumps(res).encode())
+            _os.close(wfd)
+        finally:
+            _os._exit(code)
+    _os.close(wfd)
+    buf = b''
+    t0 = time.monotonic()
+    try:
+        while time.monotonic() - t0 < timeout:
+            r, _, _ = select.select([rfd], [], [], 0.5)
+            if r:
+                chunk = _os.read(rfd, 65536)
+                if not chunk:
+                    break
+                buf += chunk
+        else:
+            buf = b''
+    finally:
+        _os.close(rfd)
+        try:
+            _os.kill(pid, 9)
+        except OSError:
+            pass
+        try:
+            _os.waitpid(pid, 0)
+        except OSError:
+            pass
+    if not buf:
+        return {'probe_error': 'probe child timed out'}
+    return json.loads(buf.decode())
